@@ -1,6 +1,7 @@
 package harness
 
 import (
+	"time"
 	"encoding/json"
 	"fmt"
 	"strings"
@@ -196,6 +197,20 @@ func checkC11(sc *Scenario, res *RunResult, t *Truth) []Violation {
 			return vs
 		}
 	}
+	// every command ends by itself: so does the project (an output handler that is stuck keeps
+	// its process "running" for ever)
+	if t.RunRet < 0 && !t.Hang && t.EndT > 100*time.Second {
+		allDead := true
+		for _, in := range t.Insts {
+			if in.Kind == "simproc" && in.ExitSeq < 0 {
+				allDead = false
+			}
+		}
+		if allDead {
+			vs = append(vs, Violation{"C11", "output-handling-stuck", "", fmt.Sprintf("every command has exited but Run() had not returned %v after the start", t.EndT), 0})
+			return vs
+		}
+	}
 	// log files, once Run() has returned
 	if t.RunRet >= 0 {
 		fileLines := map[string][]string{} // replica -> messages found in any file
@@ -226,6 +241,9 @@ func checkC11(sc *Scenario, res *RunResult, t *Truth) []Violation {
 			}
 			if p.LogLocation == "" && sc.Project.LogLocation == "" {
 				continue
+			}
+			if strings.HasPrefix(p.LogLocation, "blocker/") {
+				continue // (that file cannot exist)
 			}
 			got := fileLines[rep]
 			if p.LogLocation == "" && sc.Project.LogNoJSON {
